@@ -109,6 +109,14 @@ func c11Blocks(thorough bool) []c11Block {
 		b.Lines = lines
 		return b
 	}
+	// another rule whose quoted action value mentions the target's id
+	mention := func(line string) c11Block {
+		b := c11Rule("123457", "@rx", "OLDM", 0, nil)
+		b.Name += " mentions=" + line
+		b.Lines = append(b.Lines[:2:2], append([]string{line}, b.Lines[2:]...)...)
+		return b
+	}
+	bs = append(bs, mention(`    msg:'see id:`+c11R+` for details',\`), mention(`    logdata:'it\'s id:`+c11R+`',\`))
 	bs = append(bs, withNoise(`    msg:'see SecRule 123457',\`), withNoise(`    # SecRule ARGS "@rx disabled" \`), withNoise(`    tag:'chain',\`))
 	return bs
 }
